@@ -978,6 +978,9 @@ func (x *Exec) episode(i int, op Op) *vcore.Failure {
 		x.count("episode_overlapped")
 	}
 	x.Rec.Logf("%3d episode %v schedule: %s", i, names, strings.Join(s.Log, " "))
+	if len(s.Panics) > 0 {
+		panic(s.Panics[0]) // re-raised in the case's goroutine: the property runner turns it into a failure with the stack
+	}
 	if s.Deadlock {
 		return vcore.Failf("deadlock", "deadlock in episode %v: %s", names, s.Log[len(s.Log)-1])
 	}
